@@ -23,6 +23,20 @@ def rect(e):
 
 src = ml.ConformerEnsemble.load_mol2(ml.files.pentane_confs_mol2)
 if op in ("append", "extend"):
+    # an ensemble with atoms but no conformers yet: the first append must copy, not alias, the source's coordinates
+    e0 = ml.ConformerEnsemble(ml.Connectivity(src[0]))          # atoms and bonds, no conformer yet
+    if e0.n_conformers != 0:
+        e0 = ml.ConformerEnsemble([a.element for a in src[0].atoms])
+    mol0 = ml.Molecule(src[1])
+    keep = mol0.coords.copy()
+    try:
+        (e0.append(mol0) if op == "append" else e0.extend([mol0]))
+        e0[0].coords[0, 0] += 50.0
+        e0.translate(np.array([1.0, 2.0, 3.0]))
+        if not np.array_equal(mol0.coords, keep):
+            bad.append(f"{op} on an ensemble without conformers aliases the source molecule's coordinates: editing the conformer edits the molecule")
+    except BaseException as ex:
+        bad.append(f"{op} on an ensemble without conformers raised {type(ex).__name__}: {ex}")
     nc = int(w.get("nc", 1))
     e = ml.ConformerEnsemble(src[0], n_conformers=max(nc, 1)) if nc else ml.ConformerEnsemble(src[0], n_conformers=1)
     e.coords = src.coords[: e.n_conformers]
@@ -43,6 +57,13 @@ elif op == "nested-iteration":
     n = src.n_conformers
     if pairs != [(i, j) for i in range(n) for j in range(n)]:
         bad.append(f"nested iteration over {n} conformers visited {len(pairs)} pairs instead of {n * n}")
+    kept = list(src)
+    if [c._conf_id for c in kept] != list(range(n)) or any(not np.array_equal(c.coords, src.coords[i]) for i, c in enumerate(kept)):
+        bad.append(f"list(ensemble) does not hold the {n} conformers in order: ids {[c._conf_id for c in kept]}")
+    a0 = next(iter(src))
+    rest = [c._conf_id for c in src]
+    if a0._conf_id != 0:
+        bad.append("a conformer obtained from one iterator changed when another iteration ran")
     i1, i2 = iter(src), iter(src)
     got = [next(i1)._conf_id, next(i2)._conf_id, next(i1)._conf_id, next(i2)._conf_id]
     if got != [0, 0, 1, 1]:
